@@ -208,6 +208,15 @@ V("v_rawcel_validate", "validate", "RawCel::validate: Ok => header and user data
   ["cel::RawCel::validate", "cel::ImageContent::validate", "tilemap::TilemapData::max_tile_id", "tileset::Tileset::tile_count"], fn="RawCel::validate", witness="x_usable_after_load")
 V("v_imagecontent_validate", "validate", "ImageContent::validate: size unchanged, pixels per RawPixels::validate", ["cel::ImageContent::validate"], fn="ImageContent::validate")
 V("v_layersdata_validate", "validate", "LayersData::validate: Ok iff every tilemap layer references a tileset that exists (so write_cel's 'missing tileset' expect is unreachable)", ["layer::LayersData::validate"], fn="LayersData::validate", witness="x_usable_after_load")
+V("v_chunk_read", "chunks", "Chunk::read over the reader contract, for EVERY stream and position: Ok iff the WHOLE declared chunk is present (6-byte header, known type code, 6 <= size <= bytes the frame header still grants, all size-6 payload bytes); then type and payload are exactly the stored ones, the cursor advances by size and the frame budget shrinks by size",
+  ["parse::Chunk::read", "parse::parse_chunk_type", "parse::check_chunk_bytes"], fn="Chunk::read", witness=["x_truncation", "x_total_load"])
+V("v_chunk_read_all", "chunks", "Chunk::read_all for EVERY chunk count: Ok => exactly `count` chunks, the k-th being the chunk stored at the k-th offset (each offset = previous offset + previous size), every one complete in the stream; together they stay within the frame's declared size",
+  ["parse::Chunk::read_all"], fn="Chunk::read_all", witness=["x_truncation", "x_total_load"])
+V("v_parse_chunk_type", "chunks", "parse_chunk_type: Ok iff one of the 14 known codes, and the variant is the one of that code (C15: anything else is refused)", ["parse::parse_chunk_type"], fn="parse_chunk_type", witness="x_refusals")
+V("v_celsdata_new", "userdata", "CelsData::new(n): n rows, each with a single empty slot; no cel anywhere", ["cel::CelsData::new"], fn="CelsData::new")
+V("v_parseinfo_new", "userdata", "ParseInfo::new: one frame slot per frame (default duration, empty cel row), no layers / tags / slices / palette / user data / context", ["parse::ParseInfo::new"], fn="ParseInfo::new")
+V("v_parseinfo_validate", "validate", "ParseInfo::validate (the validation stage glue): Ok => layers unchanged; every tileset has pixels; every tilemap layer's tileset exists; the cel table keeps its shape and every cel satisfies CelsData::validate's verdict against THESE layers and tilesets; frame times, slices, sprite user data and palette are passed through - i.e. the renderer's preconditions hold after every successful load",
+  ["parse::ParseInfo::validate"], fn="ParseInfo::validate", witness="x_usable_after_load")
 V("v_tilesets_validate", "validate_tilesets", "TilesetsById::validate for EVERY tileset table: Ok => the same tileset ids survive; each has its pixels embedded (a tileset without embedded pixels is refused) and validated (same data; indexed pixels all in the palette); id, tile count, tile size, base index, name and external reference unchanged",
   ["tileset::TilesetsById::validate"], fn="TilesetsById::validate", witness=["x_refusals", "x_usable_after_load"])
 ACCESSORS = [('AsepriteFile', 'width'), ('AsepriteFile', 'height'), ('AsepriteFile', 'size'), ('AsepriteFile', 'pixel_format'), ('AsepriteFile', 'is_indexed_color'), ('AsepriteFile', 'transparent_color_index'), ('AsepriteFile', 'num_tags'), ('AsepriteFile', 'tag'), ('AsepriteFile', 'sprite_user_data'), ('Frame', 'id'), ('Frame', 'duration'), ('Layer', 'data'), ('Layer', 'id'), ('Layer', 'flags'), ('Layer', 'opacity'), ('Layer', 'layer_type'), ('Layer', 'is_tilemap'), ('Layer', 'user_data'), ('Layer', 'parent'), ('Cel', 'raw_cel'), ('Cel', 'is_empty'), ('Cel', 'is_tilemap'), ('Cel', 'top_left'), ('Cel', 'user_data'), ('Tag', 'from_frame'), ('Tag', 'to_frame'), ('Tag', 'animation_direction'), ('Tag', 'user_data')]
@@ -342,7 +351,7 @@ def prop(id, level, obls, explanation, **kw):
     d.update(kw)
     PROPS[id] = d
 
-prop("C01", "proof", ACC_V + ["v_dec_layer", "v_dec_layer_type", "v_dec_blend_mode", "v_dec_tags", "v_dec_anim_dir", "v_dec_ext", "v_dec_slice_key", "v_dec_slice9", "v_dec_palette", "v_palette_color", "v_dec_tileset", "v_dec_tileset_ref", "v_check_chunk_bytes"]
+prop("C01", "proof", ACC_V + ["v_chunk_read", "v_chunk_read_all", "v_dec_layer", "v_dec_layer_type", "v_dec_blend_mode", "v_dec_tags", "v_dec_anim_dir", "v_dec_ext", "v_dec_slice_key", "v_dec_slice9", "v_dec_palette", "v_palette_color", "v_dec_tileset", "v_dec_tileset_ref", "v_check_chunk_bytes"]
      + ["k_parse_chunk_type", "k_parse_pixel_format", "k_check_chunk_bytes", "k_pixel_format_accessors"] + READER + LAYER_DEC + TAGS_DEC + SLICE_DEC
      + ["k_palette_chunk_20", "k_palette_chunk_26", "k_palette_chunk_35"] + EXT_DEC + TS_DEC + ["v_read_aseprite", "v_parse_pixel_format", "v_parse_frame", "v_num_frames", "v_num_layers", "v_file_layer", "v_file_frame", "x_decoder_contracts", "x_roundtrip_structure", "x_header_extremes"],
      "Chunk decoders (layer, tags, external files, palette, tileset header, slice keys) are Verus contracts on the real text for EVERY payload length and entity count, field by field against the file-format layout, modulo the reader-primitive contract; the reader primitives and the enum decoders are Kani contracts (enums over their whole domain, primitives and a few decoder shapes on fixed payload sizes with symbolic contents). The composition (header, frame dispatch, accessors) cannot be executed symbolically by Kani nor extracted for Verus and is a bounded stand-in (x_*).")
@@ -350,10 +359,10 @@ prop("C02", "proof", ["v_frame_image", "v_write_cel", "x_cels_table", "x_forest_
      "The raw-cel rasteriser is proved FUNCTIONALLY correct by Verus for unbounded sizes (placement, clipping, row-major index, opacity product, blend call). mul_un8 == round8 and the cel table's storage-order independence are Kani contracts. frame_image / write_cel / is_visible glue and the dispatch table (Kani ICE, no dyn in Verus) are bounded stand-ins.")
 prop("C03", "proof", BLEND_LEAVES + BLEND_WRAPPERS + ["k_parse_blend_mode", "x_mode_table", "x_soft_light", "x_hsl_kernels", "x_blend_public_api"],
      "14 integer modes: leaves == Aseprite macros over their full domains, normal/merge == reference over all 2^72 inputs, every mode function == RGBA_BLENDER_N structure modulo callees (uninterpreted-function abstraction). soft light and the four HSL modes: integer skeleton proved, f64 kernels bounded-exec (soft light exhaustive over 65536 pairs).")
-prop("C04", "proof", VDEC_IDS + ["v_compute_parents", "v_from_vec", "k_check_chunk_bytes", "k_scale_6bit", "k_parse_chunk_type", "k_parse_pixel_format"] + LAYER_DEC + TAGS_DEC + SLICE_DEC + PAL_DEC + EXT_DEC
+prop("C04", "proof", VDEC_IDS + ["v_chunk_read", "v_chunk_read_all", "v_parse_chunk_type", "v_celsdata_new", "v_parseinfo_new", "v_parseinfo_validate", "v_celsdata_validate", "v_rawcel_validate", "v_layersdata_validate", "v_tilesets_validate", "v_compute_parents", "v_from_vec", "k_check_chunk_bytes", "k_scale_6bit", "k_parse_chunk_type", "k_parse_pixel_format"] + LAYER_DEC + TAGS_DEC + SLICE_DEC + PAL_DEC + EXT_DEC
      + TS_DEC + CEL_DEC + UD_DEC + CP_DEC + READER + ["k_tilemap_bits", "k_tile_parse", "k_cels_table", "v_read_aseprite", "v_parse_frame", "v_ud_set_tag_user_data", "v_ud_add_user_data", "v_ud_add_cel", "v_cel_mut", "x_decoder_contracts", "x_total_load"],
      "Totality contracts: every Kani decoder harness also discharges the automatic no-panic / no-overflow / in-bounds checks for all contents of its payload size; Verus proves compute_parents and that from_vec establishes its precondition. Whole-load totality (glue, zlib, stack depth, allocation) is fault enumeration in an isolated child process.", level_note_extra="fault enumeration for the composition")
-prop("C05", "proof", ["v_tilesets_validate", "v_celsdata_validate", "v_rawcel_validate", "v_imagecontent_validate", "v_layersdata_validate", "v_write_cel", "v_frame_image", "v_layer_image", "v_validate_indexed", "v_rawpixels_validate", "v_indexed_as_rgba", "v_dec_tilemap", "v_dec_tileset", "v_write_raw_cel", "v_write_tilemap_cel", "v_tile_slice", "v_tilemap_tile", "v_tilemap_lookup", "v_tile_offsets", "v_is_visible", "v_pixels_per_tile", "k_validate_indexed", "k_indexed_as_rgba", "k_tileset_head_34", "k_tileset_head_44", "x_usable_after_load"],
+prop("C05", "proof", ["v_parseinfo_validate", "v_celsdata_new", "v_parseinfo_new", "v_tilesets_validate", "v_celsdata_validate", "v_rawcel_validate", "v_imagecontent_validate", "v_layersdata_validate", "v_write_cel", "v_frame_image", "v_layer_image", "v_validate_indexed", "v_rawpixels_validate", "v_indexed_as_rgba", "v_dec_tilemap", "v_dec_tileset", "v_write_raw_cel", "v_write_tilemap_cel", "v_tile_slice", "v_tilemap_tile", "v_tilemap_lookup", "v_tile_offsets", "v_is_visible", "v_pixels_per_tile", "k_validate_indexed", "k_indexed_as_rgba", "k_tileset_head_34", "k_tileset_head_44", "x_usable_after_load"],
      "Assume/guarantee: the renderers are proved panic-free under explicit preconditions R-pre (Verus, unbounded); that validation establishes R-pre for everything that loads is checked by fault enumeration: every loadable corrupted file is driven through every accessor.")
 prop("C06", "proof", ["v_indexed_as_rgba", "v_gray_into_rgba", "v_is_background", "v_rawpixels_validate", "v_dec_cel", "v_dec_cel_content", "v_dec_cel_common", "v_dec_image_size", "v_pixel_count", "v_cel_is_empty", "v_cel_frame", "v_cel_layer", "v_celsdata_cel"] + PIX + ["k_cel_chunk_15", "k_cel_chunk_17", "k_cel_chunk_18", "k_cel_raw_rgba_28", "k_cel_raw_gray_24", "k_cel_raw_indexed_23", "v_write_raw_cel", "x_frames_vs_spec", "x_roundtrip_structure", "x_neutral_encodings"],
      "Pixel conversions proved for all values; cel header / raw payload decode on fixed sizes; placement + alpha scaling is the Verus rasteriser contract; zlib storage, linked cels and the transparent-index rule end-to-end are bounded-exec against the composition spec.")
@@ -367,11 +376,11 @@ prop("C10", "proof", UD_V + ["v_dec_userdata"] + UD_DEC + ["x_decoder_contracts"
      "The attachment rule is a Verus contract on the REAL code, extracted each run, for unbounded tables and chunk sequences: ParseInfo::add_user_data attaches a record to the entity named by the current context and changes nothing else (add_layer / add_cel / add_tags / add_slice / set_tag_user_data / CelsData::cel_mut likewise), and parse_frame - the chunk dispatch - updates that context per chunk kind exactly by the rule (fold over the chunk sequence; ignorable chunks and the new palette leave it untouched, tags only count in frame 0, a legacy palette selects the sprite). Assumed in that unit: the decoders' results (their own contracts are the dec_* units) and the chunk framing. The same rule is additionally executed for all admissible chunk sequences up to length 5 / 6 through the public API; the user-data chunk decoder is a Verus (unbounded) and Kani (fixed shapes) contract.")
 prop("C11", "proof", ["v_dec_old04", "v_dec_old11", "v_dec_palette", "v_palette_color", "v_validate_indexed", "v_rawpixels_validate", "v_scale_6bit"] + PAL_DEC + ["k_validate_indexed", "x_decoder_contracts", "x_palette_precedence", "x_indexed_needs_palette"],
      "6-bit scaling proved for all u8; palette chunk decoders against the layout on fixed sizes; pixel-index validation on a bounded shape; precedence between chunks and the load failure for incomplete palettes are bounded-exec.")
-prop("C13", "exploration", READER + ["k_check_chunk_bytes", "v_check_chunk_bytes", "v_dec_layer", "v_dec_tags", "v_dec_cel", "x_truncation"],
+prop("C13", "exploration", READER + ["v_chunk_read", "v_chunk_read_all", "v_read_aseprite", "k_check_chunk_bytes", "v_check_chunk_bytes", "v_dec_layer", "v_dec_tags", "v_dec_cel", "x_truncation"],
      "Reader primitives return an error value whenever fewer bytes remain than the field needs (contract, every position of a fixed-size cursor); that declared counts drive the reads is glue: every cut offset of generated and corpus files is executed.")
 prop("C14", "exploration", ["k_error_mapping", "k_reader_prims_6", "k_reader_sequence", "x_readers"],
      "Error mapping (io::Error -> IoError, source()) is a Kani contract; independence of reader behaviour is bounded-exec with scripted readers (short reads, Interrupted, BufReader, files) and a hard error of 6 kinds injected at byte offsets.")
-prop("C15", "proof", ["v_tilesets_validate", "v_read_aseprite", "v_parse_pixel_format", "v_dec_colorprofile", "v_dec_cp_type", "v_dec_tilemap", "v_dec_cel_content", "v_dec_layer_type", "v_dec_blend_mode", "v_dec_anim_dir", "v_dec_layer", "v_dec_tags", "k_parse_pixel_format", "k_parse_layer_type", "k_parse_blend_mode", "k_parse_animation_direction", "k_parse_chunk_type", "k_cel_chunk_18", "k_cel_chunk_17", "k_tilemap_bits"] + CP_DEC + ["x_decoder_contracts", "x_refusals"],
+prop("C15", "proof", ["v_parse_chunk_type", "v_tilesets_validate", "v_read_aseprite", "v_parse_pixel_format", "v_dec_colorprofile", "v_dec_cp_type", "v_dec_tilemap", "v_dec_cel_content", "v_dec_layer_type", "v_dec_blend_mode", "v_dec_anim_dir", "v_dec_layer", "v_dec_tags", "k_parse_pixel_format", "k_parse_layer_type", "k_parse_blend_mode", "k_parse_animation_direction", "k_parse_chunk_type", "k_cel_chunk_18", "k_cel_chunk_17", "k_tilemap_bits"] + CP_DEC + ["x_decoder_contracts", "x_refusals"],
      "Every refusal that is a branch of a contracted function is proved over the whole code domain (colour depth, layer type, blend mode, animation direction, cel type, chunk type, colour profile type/flags, bits per tile); the pixel-ratio rule and 'tileset without pixels' sit in glue and are bounded-exec at every position.")
 prop("C16", "other", ["s_send_sync", "x_determinism", "x_total_load", "v_check_chunk_bytes", "v_read_aseprite", "v_parse_frame", "v_celsdata_validate", "v_frame_image", "v_write_raw_cel", "v_write_tilemap_cel", "v_tile_slice", "v_pixels_per_tile", "v_compute_parents", "k_mul_un8", "k_blend8", "k_merge", "k_normal_r", "k_normal_g", "k_normal_b", "k_pixel_count", "k_pixels_per_tile"],
      "(a) Send + Sync: discharged by rustc's trait solver. (b) no result depends on wrapping arithmetic: the overflow obligations of the Verus units (unbounded) and of the Kani blend leaves. (c) determinism / repeat / permute / 16 threads: sanity stand-in only - interleavings are NOT explored (Kani has no threads; Verus would need its permission types in the real code); the schedule quantifier rests on Rust's Sync + &self guarantee.")
